@@ -52,6 +52,7 @@ META = {
         "unless all slots are occupied (progress); more generally in every quiescent state a taken message waits only while all A "
         "slots are occupied (work conservation). Level-1 leak histories: pairs (thorough: also triples) of outcomes ending in the same "
         "loop iteration, then the probe. distinct_nontrivial = distinct terminal/saturated per-message logs."
+        " Fault-overlap family (mc/fault_overlap.py): message X suffers one fault out of {pre_execute/post_execute/post_save/on_error hook, sync or async ack, result backend} x {RuntimeError, CancelledError, TimeoutError}, backend failing once, body raise/CancelledError/timeout/no-result, malformed/unknown message, broker stream error, while the healthy message Y has suspension points before, inside and after its function and the stop request may arrive at any point; for A in {1,2} and the default / when_received acknowledge point, stop disabled, followed by the saturation probe."
     ),
     "assumptions": [
         "asyncio semantics as implemented by BaseEventLoop (only clock/selector replaced)",
@@ -166,12 +167,32 @@ def scenarios(tier: str) -> List[Dict[str, Any]]:
     same_tick = ["return", "raise", "timeout", "sync_return", "noresult"] if tier == "quick" else names
     for h in itertools.product(same_tick, repeat=2):
         out.append(_history_scenario(2, list(h), level=1))
+    out += fault_family(tier)
     if tier == "thorough":
         for a in (1, 2):
             for nm in names:
                 out.append(_history_scenario(a, [nm], level=1))
         for h in itertools.product(["return", "raise", "timeout"], repeat=3):
             out.append(_history_scenario(3, list(h), level=1))
+    return out
+
+
+def fault_family(tier: str) -> List[Dict[str, Any]]:
+    """One fault in message X (hook / ack / backend raising RuntimeError, CancelledError or TimeoutError, body
+    outcomes, junk) overlapping the healthy message Y, for A in {1, 2} and both the default and the
+    when_received acknowledge point, followed by the saturation probe (mc/fault_overlap.py): never more than
+    A messages in processing or A task functions executing, and afterwards all A slots usable."""
+    from mc import fault_overlap as fo
+
+    out = []
+    for a in (1, 2):
+        for at in (None, "when_received"):
+            for sc in fo.family(tier, ack_types=(at,), a=a, stop=False, only=("hook", "ack", "save", "body", "junk"),
+                                orders=(True, False) if tier == "thorough" else (True,)):
+                if tier == "quick" and at == "when_received" and sc["fault"][0] not in ("ack", "hook"):
+                    continue
+                sc["probe"] = a + 1
+                out.append(sc)
     return out
 
 
